@@ -132,8 +132,21 @@ def clean_reference(cfg):
                "repop_rounds": [r for r, q in enumerate(tr.rounds) if "repopulate" in q["phases"]]}
     if len(_CLEAN_CACHE) > 64:
         _CLEAN_CACHE.clear()
+        _CLEAN_FAILURE.clear()
     _CLEAN_CACHE[key] = out
+    if not tr.ok:
+        _CLEAN_FAILURE[key] = (type(tr.exc).__name__, str(tr.exc))
     return out
+
+
+_CLEAN_FAILURE = {}
+
+
+def clean_failure(cfg):
+    """(type name, message) of the error the configuration raises on its own (no fault, valid arguments), or None."""
+    from harness.core import digest
+    clean_reference(cfg)
+    return _CLEAN_FAILURE.get(digest({k: v for k, v in cfg.items() if k != "fault"}))
 
 
 def small_config(seed):
@@ -350,7 +363,12 @@ def _bad_lambda(cfg, f, t):
         raise Violation(f"with sparsity_weight={bad!r} ({workers} worker(s)) the call did not return within {timeout:.0f} s, twice in a row")
     if tr.ok:
         raise Violation(f"a run with sparsity_weight={bad!r} returned a result")
-    if not isinstance(tr.exc, (ValueError, TypeError)):
+    own = clean_failure(cfg) if ref is None else None
+    if own is not None and (type(tr.exc).__name__, str(tr.exc)) == own:
+        # the configuration fails on its own, in a phase that comes before the optimiser ever sees the sparsity weight (e.g. a
+        # one-point cluster out of the initialisation): the property does not rank the two errors, the call raised, which is all it asks
+        t.cls("bad_lambda_preempted_by_the_configurations_own_error")
+    elif not isinstance(tr.exc, (ValueError, TypeError)):
         raise Violation(f"sparsity_weight={bad!r} surfaced as {type(tr.exc).__name__}: {str(tr.exc)[:120]}, expected the optimiser's ValueError/TypeError")
     if n_left:
         raise Violation(f"{n_left} worker process(es) still alive when the error for sparsity_weight={bad!r} reached the caller")
